@@ -595,6 +595,8 @@ func runC49(c *fw.Ctx) {
 		})
 	}
 
+	c49More(c, g)
+
 	// conformance of the sub-directory trick: a sample of A-C configs as real roots
 	confEvery := c.Pick(211, 97)
 	var confN int64
